@@ -1,8 +1,9 @@
 import Infretis.Lemmas.RepexC03Load
+import Infretis.Lemmas.RepexC03AvailSys
 /-!
 # C03 — a busy ensemble, path, engine or work directory is never shared
 
-Property theorems only (helper lemmas: `Infretis/Lemmas/RepexC03{Perm,Core,Treat,Eng,Sys,Init,Load}.lean`).
+Property theorems only (helper lemmas: `Infretis/Lemmas/RepexC03{Perm,Core,Treat,Eng,Sys,Init,Load,Avail,AvailSys}.lean`).
 Model: `Infretis/Model/Repex.lean` — `REPEX_state` as a state machine and the two loops of
 `scheduler()` as the event system `sysStep` / `run` over explicit outcomes:
 `.start o` (one iteration of `while state.initiate()`), `.initDone` (the closing `initiate()` call),
@@ -266,7 +267,7 @@ theorem zero_swap_start_needs_both_idle (y0 y y' : Sys) (evs : List Ev) (h0 : In
     (h2 : job.picked.length = 2) : y.s.locks[0]? = some false ∧ y.s.locks[1]? = some false := by
   obtain ⟨hW, hl0⟩ := prep_state_ok y0 y evs h0 hr
   unfold sysStep at hs
-  rcases initiate_cases y.s with hin | hin
+  rcases initiate_cases y.s with ⟨hin, _⟩ | ⟨ti, _, hin⟩
   · rw [hin] at hs; simp at hs
   rw [hin] at hs
   simp only [] at hs
@@ -333,5 +334,108 @@ theorem engine_instance_exclusive (y0 y : Sys) (evs : List Ev) (h0 : Init y0) (h
 
 example : (exAt 5).jobs.map (fun j => j.picked.map (·.engIdx)) = [[[(0, 0)]], [[(0, 1)]]]
     ∧ (exAt 5).s.occ = [[0, 1]] := by decide +kernel
+
+/-! ## 6. A free engine instance is always found
+
+FULL STATEMENT (not proved in this generality — kept for the record):
+
+  `engine_always_available`: with `min(count_k, workers)` instances of every engine type `k`
+  (`count_k` = number of occurrences of `k` in `ensemble_engines`, as `create_engines` builds them),
+  along every scheduler-shaped history `assign_engines` serves every requested engine type, i.e.
+  `prep_md_items` never raises in its engine part.
+
+PROVED (`_partial`): the same with the hypothesis `EngInit.sized`: every engine type has at least
+`workers` instances.  In the real set-up this is the case exactly when every engine type is used by at
+least `workers` ensembles (`count_k ≥ workers`) — in particular for the standard configuration with
+one engine type shared by all ensembles (`count = ensembles ≥ workers`).  What is missing for the
+general case is the second half of the counting argument (jobs using type `k` hold pairwise distinct
+ensembles that list `k`, so at most `count_k − 1` other workers can occupy a `k` cell).
+
+"Scheduler-shaped" = what `scheduler()` does: `start` events only, then the closing `initiate()`
+call, then `step` events only.  The restriction is needed: `run` also admits a `start` after a
+`step`, which `scheduler()` never produces; a worker that completed without being resubmitted keeps
+its engine cells (they are only freed by the same worker's next `prep_md_items`), so a later `start`
+could find a type with fewer than `workers` instances exhausted.
+
+The conclusion is phrased as "the event fails only if one of its non-engine parts fails":
+`pickPart` is `pick_lock()` / `pick()` — the part of `prep_md_items` before `assign_engines`. -/
+
+/-- **During initiation** (after any number of `start` events): if `initiate()` answers yes and the
+    pick succeeds, the whole `start` event succeeds — `assign_engines` found an instance of every
+    engine type of the picked ensembles. -/
+theorem engine_always_available_start_partial (y0 y : Sys) (starts : List Ev) (h0 : Init y0)
+    (hE : EngInit y0) (hs : ∀ ev ∈ starts, isStart ev = true) (hr : run y0 starts = .ok y)
+    (o : PickOutcome) (saved : Nat) (s1 : St) (hgo : initiate y.s = (s1, true))
+    (s1' : St) (ps : List Picked) (ds : List Draw) (hpick : pickPart s1 o saved = .ok (s1', ps, ds)) :
+    ∃ y', sysStep y (.start o saved) = .ok y' :=
+  start_available (run_starts_E starts hs (EInv.ofInit h0 hE) hr) o saved s1 hgo s1' ps ds hpick
+
+/-- **In the main loop** (after the starts, the closing `initiate()` and any number of `step`
+    events, in any completion order): if `loop()` answers yes, `treat_output` succeeds, the scheduler
+    resubmits (`cstep + workers ≤ tsteps`) and the pick succeeds, the whole `step` event succeeds. -/
+theorem engine_always_available_step_partial (y0 y : Sys) (starts steps : List Ev) (h0 : Init y0)
+    (hE : EngInit y0) (hs : ∀ ev ∈ starts, isStart ev = true) (ht : ∀ ev ∈ steps, isStep ev = true)
+    (hr : run y0 (starts ++ .initDone :: steps) = .ok y)
+    (k : Nat) (status : Status) (newW : List (List Rat)) (o : PickOutcome) (job : Job)
+    (hj : y.jobs[k]? = some job) (s1 : St) (hloop : loop y.s = (s1, true))
+    (s2 : St) (pns : List Nat) (it : Nat)
+    (htr : treatOutput s1 job status newW (sortFuel s1) = .ok (s2, pns, it))
+    (hre : s2.cstep + s2.workers ≤ s2.tsteps) (s3 : St) (ps : List Picked) (ds : List Draw)
+    (hpick : pickPart s2 o 0 = .ok (s3, ps, ds)) :
+    ∃ y', sysStep y (.step k status newW o) = .ok y' := by
+  obtain ⟨he, hph⟩ := einv_of_shaped h0 hE starts steps hs ht hr
+  have hlt : y.s.toinitiate < 0 := by
+    rcases hph with h1 | h1
+    · exact h1
+    · exfalso
+      unfold loop at hloop
+      rw [if_pos (by omega)] at hloop
+      simp at hloop
+  exact step_available he hlt k status newW o job hj s1 hloop s2 pns it htr hre s3 ps ds hpick
+
+theorem ex_engInit : EngInit exSys := by
+  have hocc : exSys.s.occ = [[-1, -1]] := by decide +kernel
+  have hens : exSys.s.ensEng = [[0], [0], [0]] := by decide +kernel
+  have hn : exSys.s.n = 4 := by decide +kernel
+  have hw : exSys.s.workers = 2 := by decide +kernel
+  constructor
+  · intro k i x hx
+    rw [hocc] at hx
+    match k, i with
+    | 0, 0 => simpa [cell] using hx.symm
+    | 0, 1 => simpa [cell] using hx.symm
+    | 0, i + 2 => simp [cell] at hx
+    | k + 1, i => simp [cell] at hx
+  · intro k l hl
+    rw [hocc] at hl
+    rw [hw]
+    match k with
+    | 0 => simp at hl; subst hl; decide
+    | k + 1 => simp at hl
+  · intro e he
+    rw [hn] at he
+    rw [hens, hocc]
+    match e, he with
+    | 0, _ => exact ⟨by decide, fun k hk => by simp at hk; subst hk; exact ⟨_, rfl⟩⟩
+    | 1, _ => exact ⟨by decide, fun k hk => by simp at hk; subst hk; exact ⟨_, rfl⟩⟩
+    | 2, _ => exact ⟨by decide, fun k hk => by simp at hk; subst hk; exact ⟨_, rfl⟩⟩
+
+example : Init exSys ∧ EngInit exSys ∧ run exSys (exEvs.take 1) = .ok (exAt 1)
+    ∧ (initiate (exAt 1).s).2 = true
+    ∧ (pickPart (initiate (exAt 1).s).1 { t := 2, e := 2 } 0).toBool = true :=
+  ⟨ex_init, ex_engInit, ex_runs 1 (by decide), by decide +kernel, by decide +kernel⟩
+
+/-- the hypotheses of the step form on the concrete history, at the moment the zero swap completes -/
+def exStepCheck : Bool :=
+  match (exAt 3).jobs[0]?, loop (exAt 3).s with
+  | some job, (s1, true) =>
+    match treatOutput s1 job .acc [[1], [1, 1, 0]] (sortFuel s1) with
+    | .ok (s2, _, _) =>
+      decide (s2.cstep + s2.workers ≤ s2.tsteps) && (pickPart s2 { t := 0, e := 0, coin := false } 0).toBool
+    | .error _ => false
+  | _, _ => false
+
+example : exEvs.take 3 = exEvs.take 2 ++ .initDone :: [] ∧ run exSys (exEvs.take 3) = .ok (exAt 3)
+    ∧ exStepCheck = true := ⟨rfl, ex_runs 3 (by decide), by decide +kernel⟩
 
 end Infretis.C03
